@@ -289,6 +289,8 @@ struct CountPolls<F> {
     polls: Arc<AtomicU64>,
     /// the handler has passed its first synchronisation operation (it has taken the payments lock once)
     passed: bool,
+    /// set when this handler itself is the task that was suspended at a preemption point
+    suspended: Arc<std::sync::atomic::AtomicBool>,
 }
 
 impl<F: Future> Future for CountPolls<F> {
@@ -298,7 +300,11 @@ impl<F: Future> Future for CountPolls<F> {
         self.polls.fetch_add(1, Ordering::Relaxed);
         let fresh = !self.passed;
         sched::set_fresh(fresh);
+        let parked_before = sched::parked();
         let r = self.inner.as_mut().poll(cx);
+        if sched::parked() > parked_before {
+            self.suspended.store(true, Ordering::Relaxed);
+        }
         if fresh && !sched::set_fresh(false) {
             self.passed = true;
         }
@@ -394,6 +400,9 @@ pub struct W {
     /// events since the task was suspended / a task stayed suspended over more than one event in this history
     park_age: u32,
     long_park: bool,
+    /// the task that was suspended in this history is an htlc_accepted handler (set by the handler's wrapper)
+    handler_suspended: Arc<std::sync::atomic::AtomicBool>,
+    delivered_height: BTreeMap<usize, u32>,
     b_trace: Vec<String>,
     steps: usize,
 }
@@ -437,15 +446,16 @@ impl W {
         if !self.has(property) {
             return;
         }
-        if self.long_park
+        if (self.long_park || self.handler_suspended.load(Ordering::Relaxed))
             && !matches!(
                 (property, clause),
-                ("C05", "no-pay-while-live") | ("C08", "intent-before-pay") | ("C08", "succeeded-holds-preimage") | ("C02", "no-fail-while-live") | ("C06", "no-panic") | ("C06", "answered") | ("C01", "key-from-completed-payment") | ("C01", "key-hashes-to-htlc") | ("C07", "identical-responses")
+                ("C05", "no-pay-while-live") | ("C08", "intent-before-pay") | ("C08", "succeeded-holds-preimage") | ("C02", "no-fail-while-live") | ("C06", "no-panic") | ("C06", "answered") | ("C01", "key-from-completed-payment") | ("C01", "key-hashes-to-htlc") | ("C07", "identical-responses") | ("C07", "paid-needs-rejected") | ("C04", "paid-needs-low-expiry")
             )
         {
-            // While a task stays suspended over several events (possibly holding the payments lock) the reference
-            // bookkeeping of what the plugin "holds" no longer matches what it has registered. Only the clauses
-            // that do not depend on it are judged in such a history.
+            // While a task stays suspended over several events (possibly holding the payments lock), or when the
+            // suspended task is an htlc_accepted handler (its HTLC was handed over, but is it registered?), the
+            // reference bookkeeping of what the plugin "holds" no longer matches what it has registered. Only the
+            // clauses that do not depend on it are judged in such a history.
             return;
         }
         if self.parks_used > 0 && matches!((property, clause), ("C04", "safe-expiry") | ("C06", "answered-within-timeout") | ("C11", "not-much-later")) {
@@ -1232,6 +1242,41 @@ impl W {
                 }
             }
         }
+        // C04/C07 second sentences, in a form that needs no bookkeeping of arrival order: whatever set the plugin is
+        // paying for consists of HTLCs that were handed over and are unanswered; if those of them that do not ask for
+        // a rejection by themselves (relative expiry below the policy delta, declared total too low) cannot cover
+        // the payment, an HTLC that had to be rejected before the set was funded is funding it
+        {
+            let rejecting_alone = |w: &Self, t: usize| -> (bool, bool) {
+                let tpl = &cfg.templates[t];
+                let h = w.delivered_height.get(&t).copied().unwrap_or(0);
+                let rel = tpl.spec.cltv_expiry_relative.unwrap_or(tpl.spec.cltv_expiry as i64 - h as i64);
+                let amount_t = w.tramp_amount(t).map(|a| a.1).unwrap_or(0);
+                let total = tpl.spec.total_msat.or(tpl.spec.forward_msat).unwrap_or(0);
+                (rel < cfg.policy_delta as i64, (total as u128) < cfg.required(amount_t))
+            };
+            let ok_sum: u128 = held.iter().filter(|t| rejecting_alone(self, **t) == (false, false)).map(|t| cfg.templates[*t].spec.amount_msat as u128).sum();
+            if ok_sum < cfg.required(amount) && !held.is_empty() {
+                let bad: Vec<String> = held.iter().filter(|t| rejecting_alone(self, **t) != (false, false)).map(|t| cfg.templates[*t].spec.name.clone()).collect();
+                let low = held.iter().any(|t| rejecting_alone(self, *t).0);
+                if !bad.is_empty() {
+                    self.violate(
+                        "C07",
+                        "paid-needs-rejected",
+                        "pay issued although the unanswered HTLCs that do not ask for a rejection cannot fund it".into(),
+                        format!("rejecting {:?}; the others sum to {} of {}", bad, ok_sum, cfg.required(amount)),
+                    );
+                    if low {
+                        self.violate(
+                            "C04",
+                            "paid-needs-low-expiry",
+                            "pay issued although it cannot be funded without an HTLC whose relative expiry is below the policy delta".into(),
+                            format!("rejecting {:?}; the others sum to {} of {}", bad, ok_sum, cfg.required(amount)),
+                        );
+                    }
+                }
+            }
+        }
         // retry_for (C19 glue, cheap to check here)
         // C04/C07 second sentences: a poisoned HTLC must never fund a pay
         let poisoned: Vec<usize> = self.mon.get(&hash).map(|m| m.poisoned.clone()).unwrap_or_default();
@@ -1659,6 +1704,7 @@ impl W {
                     inner: Box::pin(async move { mgr.handle_htlc(&req).await }),
                     polls: Arc::clone(&polls),
                     passed: false,
+                    suspended: Arc::clone(&self.handler_suspended),
                 };
                 let h = {
                     let _g = inc.rt.enter();
@@ -1668,6 +1714,7 @@ impl W {
                 self.hstate[*t] = HState::Held { inc: self.inc_no };
                 self.delivered_order.push(*t);
                 self.delivered_at.insert(*t, self.vtime_ms);
+                self.delivered_height.insert(*t, height);
                 self.after_event(ev);
             }
             Ev::Advance(ms) => {
@@ -1941,6 +1988,8 @@ impl Model for W {
             parks_used: 0,
             park_age: 0,
             long_park: false,
+            handler_suspended: Arc::new(std::sync::atomic::AtomicBool::new(false)),
+            delivered_height: BTreeMap::new(),
             b_trace: Vec::new(),
             steps: 0,
         };
